@@ -30,6 +30,8 @@ package schnorr
 
 //@ func (*ZKProof).Verify
 //@   props C06 C11 C12 C05 C10
+//@   modifies zkok(0)
+//@   assume-ensures [G-accepted-proof-counter] (result ==> zkok(0) == old(zkok(0)) + 1) && (!result ==> zkok(0) == old(zkok(0)))
 //@   requires validPoint(X) && okCurve(X.curve) && len(Session) <= 1048576
 //@   requires pf != nil ==> ((pf.Alpha != nil ==> validPoint(pf.Alpha)) && (pf.T != nil ==> val(pf.T) >= 0))
 //@   ensures result ==> (pf != nil && pf.T != nil && pf.Alpha != nil)
@@ -48,6 +50,8 @@ package schnorr
 
 //@ func (*ZKVProof).Verify
 //@   props C06 C11 C12 C05 C10
+//@   modifies zkvok(0)
+//@   assume-ensures [G-accepted-proof-counter] (result ==> zkvok(0) == old(zkvok(0)) + 1) && (!result ==> zkvok(0) == old(zkvok(0)))
 //@   requires validPoint(V) && okCurve(V.curve) && validPoint(R) && R.curve == V.curve && len(Session) <= 1048576
 //@   requires pf != nil ==> ((pf.Alpha != nil ==> (pf.Alpha.curve != nil && wfPoint(pf.Alpha))) && (pf.T != nil ==> val(pf.T) >= 0) && (pf.U != nil ==> val(pf.U) >= 0))
 //@   ensures result ==> (pf != nil && pf.T != nil && pf.U != nil && validPoint(pf.Alpha))
